@@ -842,10 +842,13 @@ func main() {
 		}
 		ksKeys = append(ksKeys, keyRec{sd.name + "/ks", p, p.XPub()})
 	}
-	wg.Add(2)
+	wg.Add(3)
 	go func() { defer wg.Done(); la := newAcc(); sectionKeystore(la, ksKeys, run.Thorough()); a.merge(la) }()
 	go func() { defer wg.Done(); la := newAcc(); sectionHSM(la, run.Thorough()); a.merge(la) }()
+	var histWorlds map[string]interface{}
+	go func() { defer wg.Done(); histWorlds = sectionHSMHistories(a, run.Thorough(), 8) }()
 	wg.Wait()
+	run.Set("hsm_history_worlds", histWorlds)
 
 	var keys []keyRec
 	for _, sd := range seeds() {
@@ -884,12 +887,14 @@ func main() {
 	if run.Thorough() {
 		run.Set("non_hardened_two_selector_depth", deepDepth)
 	}
-	run.Set("rule", "cases: derivation nodes = (seed, path) for every path up to mixed_path_depth over the step alphabet {3 selectors (empty, 01, 32 x ff) x non-hardened} + hardened steps (quick: one hardened selector, thorough: all three; thorough additionally every non-hardened path up to depth 8 over two selectors); signature cases = (key, message, other key | other message | flipped bit); key store cases = (key, password, attempted password). Non-trivial = all-non-hardened paths of depth >= 2 whose whole-path commutation xprv.Derive(p).XPub() == xprv.XPub().Derive(p) was evaluated (the scalar addition acts on an already derived scalar), every single-bit-flipped message, every wrong-password attempt.")
+	run.Set("rule", "cases: derivation nodes = (seed, path) for every path up to mixed_path_depth over the step alphabet {3 selectors (empty, 01, 32 x ff) x non-hardened} + hardened steps (quick: one hardened selector, thorough: all three; thorough additionally every non-hardened path up to depth 8 over two selectors); signature cases = (key, message, other key | other message | flipped bit); key store cases = (key, password, attempted password); key store histories = every operation sequence of length 1..depth over the alphabets listed in hsm_history_worlds (XSign, LoadChainKDKey, ResetPassword, XDelete, ImportKeyFromMnemonic with each of two passwords, re-opening the directory with a new HSM; one key found on disk / one key imported on the instance under test / two keys with different passwords), each executed from scratch on a real HSM over a real directory beside the model (key present?, current password), one evaluation per operation verdict plus one closing comparison of the directory and ListKeys with the model. Non-trivial = histories containing an operation whose required verdict differs from the one the same call would get in the initial state (a password change, deletion or re-import happened before it), all-non-hardened paths of depth >= 2 whose whole-path commutation xprv.Derive(p).XPub() == xprv.XPub().Derive(p) was evaluated (the scalar addition acts on an already derived scalar), every single-bit-flipped message, every wrong-password attempt.")
 	run.Sample(map[string]string{"seed": "32 zero bytes", "path": "N:/N:01/N:ff..ff/H:01", "check": "xprv, xpub against big.Int reference; public derivation of each N step"})
 	run.Sample(map[string]string{"seed": "ascii 'seed'", "path": "N:01/N:ff..ff", "check": "xprv.Derive(p).XPub() == xprv.XPub().Derive(p)"})
 	run.Sample(map[string]string{"sign": "root of seed ff32, 1 KiB message", "check": "equal to RFC 8032 reference signer; 8192 single-bit flips rejected"})
 	run.Sample(map[string]string{"keystore": "password 'a' vs attempts 'a ', ' a', 'a\\x00', 'A', 'aa', ''", "required": "could not decrypt"})
 	run.Sample(map[string]string{"hsm": "ImportKeyFromMnemonic(abandon x11 about), XSign path [01, empty]", "required": "same signature as in-memory derive+Sign; wrong password refused"})
+	run.Sample(map[string]string{"hsm history": "key file under P0 ; sign(k0,P0) ; reset(k0,P0->P1) ; sign(k0,P0)", "required": "accepted, accepted, refused; afterwards the file decrypts with P1 only"})
+	run.Assume("key store histories run on pseudohsm.New's HSM with only the scrypt cost parameters of its keyStorePassphrase replaced by N=2,p=1 (hooks/blockchain/pseudohsm, VerifNewWithScrypt); the fixed script of sectionHSM keeps the unmodified constructor. Two passwords and at most two keys; the 2 s reload throttle of the key cache never elapses inside a history, so directory rescans happen only at the first access of an instance")
 	run.Assume("crypto/hmac, crypto/sha512, crypto/aes, golang.org/x/crypto/{scrypt,pbkdf2,sha3} are trusted primitives; the Edwards25519 arithmetic of the reference is written here on math/big and anchored on RFC 8032 vectors")
 	run.Assume("all seeds / all messages / all passwords are sampled by the stated finite sets; the commutation is an algebraic identity, the enumeration exercises the clamping, carry and encoding paths that bounded paths can reach")
 	run.Assume("the password matrix runs with scrypt N=2,p=1 (EncryptKey takes the parameters as arguments); light parameters once, standard parameters once in thorough; salt and IV come from the system CSPRNG, which does not influence any verdict")
